@@ -463,6 +463,32 @@ func gen(a vh.Args) {
 	for _, c := range bg {
 		emit(fmt.Sprintf("BG %d %d %s", r.U64()>>1, c[0], intsStr(c[1:])))
 	}
+	// stream validator: payload lengths at every boundary of the block size, each against
+	// every structural chunk cut (runVS)
+	{
+		deltas := []int{0, 1, -1, 4, -4, 16, -16, 20, -20}
+		var lens []int
+		for _, d := range deltas {
+			lens = append(lens, bsz+d)
+		}
+		for _, d := range []int{0, -16, -4, 1} {
+			lens = append(lens, 2*bsz+d)
+		}
+		lens = append(lens, 0, 1, 12, bsz/2)
+		if a.Tier == "thorough" {
+			for _, d := range deltas {
+				lens = append(lens, 2*bsz+d, 3*bsz+d)
+			}
+			for i := 0; i < 20; i++ {
+				lens = append(lens, r.Intn(3*bsz))
+			}
+		}
+		for _, n := range lens {
+			if n >= 0 {
+				emit(fmt.Sprintf("VS %d %d", r.U64()>>1, n))
+			}
+		}
+	}
 	// compression chain (monitor only): the PATTERN of Write sizes is the dimension, for
 	// every compression type: sessions then image, many small, small-then-huge,
 	// huge-then-small, around the 64 KB snappy frame, across the 2 MB block
